@@ -64,8 +64,9 @@ package types
 
 //@ spec func sumPow(vals []*Validator, n int) int = ite(n <= 0, 0, sumPow(vals, n-1) + vals[n-1].VotingPower)
 
-// wfVals: members non-nil with positive power; total within the cap; cache is 0 or the sum.
-//@ spec func wfVals(vs *ValidatorSet) bool = vs != nil && (forall i int :: 0 <= i && i < len(vs.Validators) ==> vs.Validators[i] != nil && vs.Validators[i].VotingPower >= 0) && (forall i int :: 0 <= i && i <= len(vs.Validators) ==> 0 <= sumPow(vs.Validators, i) && sumPow(vs.Validators, i) <= 1152921504606846975) && (vs.totalVotingPower == 0 || vs.totalVotingPower == sumPow(vs.Validators, len(vs.Validators)))
+// wfVals: members non-nil with non-negative power; at most 2^32-1 members (validator indices are uint32);
+// total within the cap; cache is 0 or the sum.
+//@ spec func wfVals(vs *ValidatorSet) bool = vs != nil && len(vs.Validators) <= 4294967295 && (forall i int :: 0 <= i && i < len(vs.Validators) ==> vs.Validators[i] != nil && vs.Validators[i].VotingPower >= 0 && vs.Validators[i].VotingPower <= 1152921504606846975) && (forall i int :: 0 <= i && i <= len(vs.Validators) ==> 0 <= sumPow(vs.Validators, i) && sumPow(vs.Validators, i) <= 1152921504606846975) && (vs.totalVotingPower == 0 || vs.totalVotingPower == sumPow(vs.Validators, len(vs.Validators)))
 
 //@ func (vs *ValidatorSet) updateTotalVotingPower()
 //@   for C02 C12
@@ -208,3 +209,57 @@ package types
 //@   for C13
 //@   requires ps != nil
 //@   ensures r <==> ps.count == ps.total
+
+// ---------------------------------------------------------------- C02/C11: commit verification
+
+// Signature verification is a pure predicate of (address, hash bytes, signature bytes).
+//@ spec func sigOK(addr common.Address, hash Content, sig Content) bool
+//@ trusted func VerifySignature(addr common.Address, hash, signature []byte) (r bool)
+//@   ensures r <==> sigOK(addr, content(hash), content(signature))
+
+// The sign bytes of a vote are a function of exactly the canonical fields (chain id, type, height,
+// round, timestamp, block id); that CreateCanonicalVote copies each of them is proved (C11), that
+// protobuf marshalling is a function of the canonical struct is trusted.
+//@ spec func voteBytes(chainID string, typ int, height int, round int, ts time.Time, hash Content, total int, pshash Content) Content
+//@ trusted func VoteSignBytes(chainID string, vote *kproto.Vote) (r []byte)
+//@   requires vote != nil
+//@   ensures fresh(r) && content(r) == voteBytes(chainID, vote.Type, vote.Height, vote.Round, vote.Timestamp, content(vote.BlockID.Hash), vote.BlockID.PartSetHeader.Total, content(vote.BlockID.PartSetHeader.Hash))
+
+// Block id a commit signature stands for: the commit's block id for a commit flag, the zero id otherwise.
+//@ spec func sigBID(c *Commit, i int) BlockID = ite(c.Signatures[i].BlockIDFlag == BlockIDFlagCommit, c.BlockID, BlockID{})
+//@ spec func commitSignBytes(chainID string, c *Commit, i int) Content = voteBytes(chainID, 2, c.Height, c.Round, c.Signatures[i].Timestamp, content(sigBID(c, i).Hash), sigBID(c, i).PartsHeader.Total, content(sigBID(c, i).PartsHeader.Hash))
+
+//@ func (commit *Commit) VoteSignBytes(chainID string, valIdx uint32) (r []byte)
+//@   for C02 C11
+//@   requires commit != nil && valIdx < len(commit.Signatures)
+//@   requires commit.Signatures[valIdx].BlockIDFlag >= 1 && commit.Signatures[valIdx].BlockIDFlag <= 3
+//@   ensures content(r) == commitSignBytes(chainID, commit, valIdx)
+
+// Power of the validators whose signature slot carries the commit flag.
+//@ spec func tallyFor(c *Commit, vs *ValidatorSet, n int) int = ite(n <= 0, 0, tallyFor(c, vs, n-1) + ite(c.Signatures[n-1].BlockIDFlag == BlockIDFlagCommit, vs.Validators[n-1].VotingPower, 0))
+
+//@ func (commit *Commit) ValidateBasic() (err error)
+//@   for C02 C13
+//@   requires commit != nil
+//@   ensures err == nil && commit.Height >= 1 ==> len(commit.Signatures) > 0 && !(commit.BlockID == BlockID{})
+//@   ensures err == nil && commit.Height >= 1 ==> forall i int :: 0 <= i && i < len(commit.Signatures) ==> commit.Signatures[i].BlockIDFlag >= 1 && commit.Signatures[i].BlockIDFlag <= 3
+//@   loop 1:
+//@     invariant 0 <= iter && iter <= len(commit.Signatures)
+//@     invariant forall i int :: 0 <= i && i < iter ==> commit.Signatures[i].BlockIDFlag >= 1 && commit.Signatures[i].BlockIDFlag <= 3
+
+//@ func (vs *ValidatorSet) VerifyCommit(chainID string, blockID BlockID, height uint64, commit *Commit) (err error)
+//@   for C02 C01 C13
+//@   requires vs != nil ==> wfVals(vs)
+//@   requires height >= 1
+//@   nooverflow
+//@   modifies vs.totalVotingPower
+//@   ensures [nonNil] err == nil ==> vs != nil && commit != nil
+//@   ensures [sizeMatches] err == nil ==> len(commit.Signatures) == len(vs.Validators)
+//@   ensures [heightAndID] err == nil ==> commit.Height == height && commit.BlockID == blockID
+//@   ensures [sigsVerified] err == nil ==> forall i int :: 0 <= i && i < len(commit.Signatures) && commit.Signatures[i].BlockIDFlag != BlockIDFlagAbsent ==> sigOK(vs.Validators[i].Address, crypto.keccak(commitSignBytes(chainID, commit, i)), content(commit.Signatures[i].Signature))
+//@   ensures [quorum] err == nil ==> 3 * tallyFor(commit, vs, len(vs.Validators)) > 2 * sumPow(vs.Validators, len(vs.Validators))
+//@   loop 1:
+//@     invariant 0 <= iter && iter <= len(commit.Signatures)
+//@     invariant talliedVotingPower == tallyFor(commit, vs, iter)
+//@     invariant 0 <= talliedVotingPower && talliedVotingPower <= sumPow(vs.Validators, iter)
+//@     invariant forall i int :: 0 <= i && i < iter && commit.Signatures[i].BlockIDFlag != BlockIDFlagAbsent ==> sigOK(vs.Validators[i].Address, crypto.keccak(commitSignBytes(chainID, commit, i)), content(commit.Signatures[i].Signature))
